@@ -72,7 +72,9 @@ SMILES_CONC = (
     "C/C=C/C=C/C", "C12C3C4C1C5C2C3C45", "C1CC1C2CC2", "C%10CC%10", "[Fe+2].[O-]C", "[Na+].[Cl-]",
     "C1CC1.C1CC1.c1ccccc1", "[13CH4]", "[2H]O[2H]", "[O-][N+](=O)c1ccccc1", "S(F)(F)(F)(F)(F)F",
     "[Te]1C=CC=C1", "c1cc[se]c1", "[SiH2]1CCCC1", "[Cu+2].[18O]", "C[S@](=O)N", "[NH4+]", "c1ccc[nH+]c1",
-    "C:C:C:C", "C1:C:C:C:C:C:1", "C:C:C", "N:C:C:N", "CC:CC", "C(", "C1CC", "cc", "c1cccc1", "[Xx]", "C(F)(F)(F)(F)F", "C=C=C=C", "[nH]1cccc1", "c1cocc1C#N")
+    "C:C:C:C", "C1:C:C:C:C:C:1", "C:C:C", "N:C:C:N", "CC:CC", "[CH3:1][CH2:2]O", "C1CCCCCCCCCCCCCCCCCC1",
+    "C(CCCCCCCCCCCCCCCCCCC)(F)Cl", "F/C=C/C=C\\C=C/Cl", "C[C@H]1CC[C@@H](C)CC1", "O[C@@H]1CC[C@]21CCC2", "[H]C([H])([H])[H]",
+    "C%11CC%11C%12CC%12", "C(", "C1CC", "cc", "c1cccc1", "[Xx]", "C(F)(F)(F)(F)F", "C=C=C=C", "[nH]1cccc1", "c1cocc1C#N")
 
 
 # aromatic systems on which the library's greedy matching is not perfect, so
